@@ -90,7 +90,7 @@ CHECKS = {
     "C10": (
         "core+persist+crash hook+process",
         "fault_enumeration",
-        "Fault enumeration over the flush procedure: every crash point (22: each file-system step of a flush incl. slot invalidation and selector move; *.tmp files additionally torn) of every flush in histories of 1-4 (thorough 5) flushes of pairwise distinct states with distinct registrations, x 4 follow-ups (restart, restart twice, restart+flush+restart, restart+crash again+restart) - 456 enumerated crash runs - plus 3 k random crash/restart/flush histories. After every restart the served state must be the last completed snapshot or the in-progress one (each with its own registrations applied) and repeated restarts must be idempotent. Process part (96 cases quick): a real server process in JSON mode (flush interval 1 s) is written to by one client who pauses > 1 s in the middle, is stopped by SIGKILL at a sampled time / after a generated answer or by SIGTERM, and a second process must serve the state after some prefix of the changes with that prefix's registrations applied (everything after a clean stop) - this reaches the periodic task and the shutdown sequence that call the flush procedure.",
+        "Fault enumeration over the flush procedure: every crash point (22: each file-system step of a flush incl. slot invalidation and selector move; *.tmp files additionally torn) of every flush in histories of 1-4 (thorough 5) flushes of pairwise distinct states with distinct registrations, x 4 follow-ups (restart, restart twice, restart+flush+restart, restart+crash again+restart) - 456 enumerated crash runs - plus 3 k random crash/restart/flush histories. After every restart the served state must be the last completed snapshot or the in-progress one (each with its own registrations applied) and repeated restarts must be idempotent. Process part (96 cases quick): a real server process in JSON mode (flush interval 1 s) is written to by one client who pauses > 1 s in the middle, is stopped by SIGKILL at a sampled time / after a generated answer or by SIGTERM, and a second process must serve the state after some prefix of the changes with that prefix's registrations applied, never a mix or a partial state (after a clean stop as well: C10 promises the last completed flush or the one in progress) - this reaches the periodic task and the shutdown sequence that call the flush procedure.",
         "Process-crash model of the property: a crash = early return at a crash point (cargo feature verif) between two file operations; completed operations persist in order; only *.tmp can be torn. The list of crash points is taken from the trace of an undisturbed flush, so a new file operation without a crash point is not covered automatically. In the process part kill positions are sampled by wall-clock time.",
         "fault injection with exhaustive crash-point enumeration + proptest crash/restart histories, oracle = 'last completed or in progress' over reference-model snapshots",
         "DESIGN.md §5 C10",
